@@ -139,6 +139,13 @@ def main():
     if not st["ok"]:
         print("INCONCLUSIVE engine self-test failed: %s" % st)
         sys.exit(2)
+    import jade
+
+    repo = os.environ.get("VERIF_REPO", "/repo")
+    if not os.path.abspath(jade.__file__).startswith(os.path.abspath(repo) + os.sep):
+        print("INCONCLUSIVE jade imported from %s, expected %s" % (jade.__file__, repo))
+        sys.exit(2)
+    print("code under test: %s" % os.path.dirname(jade.__file__))
     known = load_known()
     results, new_violations, known_hits, inconclusive = [], [], [], []
     for ob in obs:
